@@ -277,10 +277,19 @@ async def run_ops(sc, fake, clock):
     with instrumented(fake, clock) as s3c:
         if cfg.get('aws'):
             from replicat.backends import s3 as s3mod
-            be = s3mod.S3(cfg['bucket'], key_id=cfg['key_id'], access_key=cfg['access_key'], region=cfg['region'])
+            cls, kw = s3mod.S3, dict(key_id=cfg['key_id'], access_key=cfg['access_key'], region=cfg['region'])
         else:
-            be = s3c.S3Compatible(cfg['bucket'], key_id=cfg['key_id'], access_key=cfg['access_key'], region=cfg['region'],
-                                  host=cfg['host'], scheme=cfg['scheme'])
+            cls, kw = s3c.S3Compatible, dict(key_id=cfg['key_id'], access_key=cfg['access_key'], region=cfg['region'],
+                                             host=cfg['host'], scheme=cfg['scheme'])
+        if sc.get('optional_args'):
+            # every optional constructor argument the adapter has (found by introspection) is given a value: whatever it makes
+            # the adapter put on the wire is judged like the rest
+            import inspect
+            for name, prm in inspect.signature(cls.__init__).parameters.items():
+                if name not in kw and name not in ('self', 'connection_string') and prm.default is not inspect.Parameter.empty \
+                        and prm.kind in (prm.KEYWORD_ONLY, prm.POSITIONAL_OR_KEYWORD) and (prm.default is None or isinstance(prm.default, str)):
+                    kw[name] = 'verif-' + name.replace('_', '-')
+        be = cls(cfg['bucket'], **kw)
         if 'command' in sc:
             try:
                 await run_command(sc, be, fake)
@@ -556,6 +565,8 @@ def gen_scenario(rng, nops=6):
     sc = {'cfg': gen_cfg(rng), 'ops': ops, 'stamps': gen_stamps(rng, 8 * len(ops) + 16)}
     if rng.random() < 0.3:
         sc['put_faults'] = rng.choice([1, 2, 3])      # transient 503s on PUT: every retry must again declare what it sends
+    if rng.random() < 0.3:
+        sc['optional_args'] = True       # the adapter is constructed with all its optional arguments set
     if rng.random() < 0.4:
         # the process runs in a time zone whose calendar date differs from the UTC date for part of every day (far west: the
         # previous day until 08:00-12:00 UTC; far east: the next day from 10:00-15:00 UTC on): SigV4 dates are UTC dates
